@@ -338,9 +338,10 @@ func (wd *world) makeSubject(sid int, shp any, unsigned func(blob.Ref) string, s
 	trimmed := strings.TrimRightFunc(un, unicode.IsSpace)
 	su.plen = len(trimmed) - 1
 	su.siglen = len(su.doc) - su.plen - len(sep) - len(tail)
-	pj := su.doc[:su.plen] + "}"
-	if err := json.Unmarshal([]byte(pj), &su.origMap); err != nil {
-		fatal("payload of the document under test is not JSON:", err)
+	// the fields the signer was given (the harness's own unsigned document; what Sign made of it is judged by the
+	// base line: valid JSON, fields exposed, verifies)
+	if err := json.Unmarshal([]byte(trimmed), &su.origMap); err != nil {
+		fatal("the unsigned document of the harness is not JSON:", err)
 	}
 	sg, _ := su.origMap["camliSigner"].(string)
 	su.origSig, _ = blob.Parse(sg)
